@@ -59,7 +59,7 @@ REQUIRED = ['plot:pd_ts', 'plot:pk_ts', 'plot:pd_pred', 'plot:pk_pred', 'plot:re
             'nan:time', 'nanobs', 'idx:perm', 'idx:dup', 'keys:custom', 'obs:explicit', 'ties', 'n>=50',
             'probs>=2', 'probs=7', 'intvalues', 'scatter', 'resid:indiv', 'resid:rel', 'resid:nores',
             'band:both', 'obsdtype:object', 'resid:intvalues', 'nanobs:first-default:pd_pred',
-            'nanobs:first-default:pd_ts', 'dose:unshown-individual', 'times:unsorted', 'times:close', 'ids>10', 'dose:zero_amount']
+            'nanobs:first-default:pd_ts', 'dose:unshown-individual', 'times:unsorted', 'times:close', 'ids>10', 'dose:zero_amount', 'simulation_before_data']
 
 PLOTS = ['pd_ts', 'pk_ts', 'pd_pred', 'pk_pred', 'resid']
 KEYPOOL = {
@@ -871,6 +871,13 @@ def check(case):
             n0 = len(fig._fig.data)
             # (a new figure shows nothing yet, whatever other figures of this process hold)
             case.equal(n0, 0, 'number of traces of a newly constructed figure', kind='count')
+            if not pk and 'sim' in s and len(data['rows']) % 2 == 0:
+                # the line of a first guess is drawn BEFORE the data are added (and the fitted model's line afterwards)
+                sim0 = s['sim']
+                fig.add_simulation(build_frame(sim0), time_key=sim0['keys']['time'], value_key=sim0['keys']['value'])
+                n0 = len(fig._fig.data)
+                case.equal(n0, 1, 'number of traces after a first add_simulation', kind='count')
+                case.labels.append('simulation_before_data')
             if pk:
                 kw = _kw(data, ['id', 'time', 'obs', 'value', 'dose', 'dur'],
                          ['id_key', 'time_key', 'obs_key', 'value_key', 'dose_key', 'dose_duration_key'])
@@ -923,6 +930,9 @@ def check(case):
             want = [(_tok(r['time']), _tok(r['value'])) for r in _dicts(sim)]
             case.true(got == want, 'simulation trace %r, frame rows %r' % (got[:12], want[:12]), kind='pairs')
             case.equal(len(fig._fig.data), n1 + 1, 'total number of traces after add_simulation', kind='count')
+            # the traces added before (data of every individual, an earlier simulation line) are still there, unchanged
+            _check_data_traces(case, pre + 'after_simulation:', fig._fig, list(fig._fig.data)[n0:n0 + len(traces)], data,
+                               _resolve(s['observable'], data), pk, not pk)
         return
 
     if plot in ('pd_pred', 'pk_pred'):
